@@ -808,7 +808,23 @@ class PEval:
             if name in ('list', 'tuple', 'set', 'frozenset', 'sorted', 'reversed'):
                 seq = list(self._iterate(args[0])) if args else []
                 if name == 'sorted':
-                    return sorted(seq)
+                    keyf = kwargs.get('key')
+                    rev = bool(kwargs.get('reverse', False))
+                    if keyf is None:
+                        return sorted(seq, reverse=rev)
+                    keys = []
+                    for x in seq:
+                        if isinstance(keyf, FuncVal):
+                            k = self.call_funcval(keyf, [x], {})
+                        elif isinstance(keyf, FuncRef):
+                            k = self.call_function(self.repo.func(keyf.module, keyf.qualname), [x], {}, None)
+                        else:
+                            return UNKNOWN
+                        if k is UNKNOWN:
+                            return UNKNOWN
+                        keys.append(k)
+                    order = sorted(range(len(seq)), key=lambda i: keys[i], reverse=rev)     # stable, like sorted()
+                    return [seq[i] for i in order]
                 if name == 'reversed':
                     return list(reversed(seq))
                 if name in ('set', 'frozenset'):
